@@ -138,9 +138,12 @@ package closure
 //@   records dyn
 //@   ensures #order scalls() == 2 && scall(0, dyn, vac, env) && scall(1, dyn, idxc, env)
 
-// member access
+// member access: by the name of the field, looked up in the run-time object's
+// own type (C01 / C16: the position recorded by the checker belongs to the
+// static type; an equal run-time type may order its fields differently)
 //@ closure compile0$14
-//@   props C06 C03
+//@   props C06 C03 C01 C16
+//@   ensures #by-name isObjV(sret(0, dyn)) && mapHas(sret(0, dyn).Type.Obj().Index, name) ==> result == sret(0, dyn).Obj().V[mapGet(sret(0, dyn).Type.Obj().Index, name)]
 //@   modifies all
 //@   records dyn
 //@   ensures #order scalls() == 1 && scall(0, dyn, obj, env)
